@@ -592,20 +592,9 @@ func (l *lagChild) queueFamily() {
 		}
 		run(l.lagSprinkleIx(evs, 0.25), true, "random")
 	}
-	// OUTSIDE the guard of store_reads_linearizable: one key under two flags (the index is keyed by the key bytes alone).
-	// A fresh queue each (a delIndex panic leaves the entry behind, the schedules do not drain); op lines only — the model predicts the same answers
-	// (flag_clash_refuted), no oracle.
-	clash := [][]lagEv{
-		{{kind: 'p', flag: 7, key: 9, val: []byte{1}}, {kind: 'p', flag: 6, key: 9, val: []byte{2}}, {kind: 'g', flag: 7, key: 9}, {kind: 'g', flag: 6, key: 9}, {kind: 'w'}, {kind: 'i'}, {kind: 'a'}},
-		{{kind: 'p', flag: 7, key: 9, val: []byte{1}}, {kind: 'w'}, {kind: 'p', flag: 6, key: 9, val: []byte{2}}, {kind: 'g', flag: 7, key: 9}, {kind: 'a'}, {kind: 'g', flag: 6, key: 9}},
-		{{kind: 'p', flag: 7, key: 9, val: []byte{1}}, {kind: 'w'}, {kind: 'a'}, {kind: 'p', flag: 6, key: 9, val: []byte{2}}, {kind: 'g', flag: 7, key: 9}, {kind: 'g', flag: 6, key: 9}, {kind: 'w'}, {kind: 'a'}, {kind: 'g', flag: 7, key: 9}},
-	}
-	for i, evs := range clash {
-		y := lagNewQueue(filepath.Join(l.tmp, fmt.Sprintf("queue-clash%d", i)))
-		x = y
-		run(evs, false, "flag-clash(outside-the-guard)")
-		y.close()
-	}
+	// (until /repo 14469b9 three schedules ran OUTSIDE the guard of store_reads_linearizable — one key under two flags — and the model
+	// predicted the real queue's stale read and delIndex panic (flag_clash_refuted). The index is now keyed by flag and key, the model keeps
+	// its guard; the schedules are gone and the crash is watched on the real engine by hx c15: c15/panic/file-queue-flag-clash.)
 }
 
 // ================================================================ family `api`
